@@ -702,11 +702,108 @@ def f(x: fp.Real) -> fp.Real:
     return k - x
 ''', 'f', ['real'], ['simplify', 'constfold', 'branch', 'return'])
 
+# ---- loop restructuring: bodies that write the iterated list, variable split factors, narrow ambient contexts -----
+prog('loop_lookahead_write', '''
+@fp.fpy
+def f(xs: list[fp.Real]) -> fp.Real:
+    acc = 0.0
+    i = 0
+    for x in xs:
+        acc = acc + x
+        if i + 1 < len(xs):
+            xs[i + 1] = x + 1.0
+        i = i + 1
+    return acc
+''', 'f', [('list', [0, 1, 2, 3, 4, 5])], ['loop', 'unroll_for', 'split', 'alias'])
+
+prog('loop_factor_var_reassigned', '''
+@fp.fpy
+def f(xs: list[fp.Real], k: fp.Real) -> fp.Real:
+    acc = 0.0
+    for x in xs:
+        acc = acc + x * k
+        k = k + 1.0
+    return acc
+''', 'f', [('list', [0, 1, 2, 3, 4]), ('int', [1, 2, 3])], ['loop', 'split', 'split_var', 'heavy'])
+
+prog('loop_factor_var_plain', '''
+@fp.fpy
+def f(xs: list[fp.Real], k: fp.Real) -> fp.Real:
+    acc = 0.0
+    for x in xs:
+        acc = acc + x + k
+    return acc
+''', 'f', [('list', [0, 1, 2, 3, 4]), ('int', [1, 2, 3])], ['loop', 'split', 'split_var'])
+
+prog('loop_under_one_digit', '''
+@fp.fpy
+def f(xs: list[fp.Real]) -> fp.Real:
+    with C1:
+        last = 0
+        for x in xs:
+            last = x
+        return last
+''', 'f', [('list', [0, 1, 2, 3, 4, 5, 6, 7])], ['loop', 'unroll_for', 'split', 'context'])
+
+
+prog('fuse_target_shadows', '''
+@fp.fpy
+def f(xs: list[fp.Real]) -> fp.Real:
+    x = 5.0
+    b = any([x < 0 for x in xs])
+    if b:
+        return x + 1
+    return x
+''', 'f', [('list', [0, 1, 2, 3])], ['fuse', 'comprehension', 'simplify'])
+
+prog('fuse_in_while_condition', '''
+@fp.fpy
+def f(xs: list[fp.Real]) -> fp.Real:
+    i = 0
+    while i < 3 and any([v > i for v in xs]):
+        i = i + 1
+    return i
+''', 'f', [('list', [0, 1, 2])], ['fuse', 'comprehension', 'loop'])
+
+prog('fuse_sum_then_mutate', '''
+@fp.fpy
+def f(xs: list[fp.Real], y: fp.Real) -> fp.Real:
+    s = sum([v + y for v in xs])
+    t = sum([v * 2 for v in xs])
+    return s - t
+''', 'f', [('list', [0, 1, 2, 3]), 'real'], ['fuse', 'comprehension'])
+
+prog('temporaries_vs_user_names', '''
+@fp.fpy
+def f(xs: list[fp.Real]) -> fp.Real:
+    t = 0.0
+    t4 = 1.0
+    for x in xs:
+        t = t + x + t4
+    return t + t4
+''', 'f', [('list', [0, 1, 2, 3])], ['loop', 'unroll_for', 'split', 'names'])
+
+prog('temporaries_vs_user_names_i', '''
+@fp.fpy
+def f(xs: list[fp.Real]) -> fp.Real:
+    i = 2.0
+    i4 = 1.0
+    for x in xs:
+        i = i + x
+    return i + i4
+''', 'f', [('list', [0, 1, 2, 3])], ['loop', 'unroll_for', 'split', 'names'])
+
+prog('fuse_guarded_operand', '''
+@fp.fpy
+def f(xs: list[fp.Real], ys: list[fp.Real], i: int) -> bool:
+    return i < len(xs) and any([xs[i] < v for v in ys])
+''', 'f', [('list', [0, 1]), ('list', [0, 1, 2]), ('int', [0, 1])], ['fuse', 'comprehension'])
+
 def namespace():
     """contexts the corpus programs refer to by name"""
     import fpy2 as fp
     return dict(C3=fp.MPSFloatContext(3, -2), C4=fp.MPSFloatContext(4, -3), CI=fp.INTEGER,
-                C3UP=fp.MPSFloatContext(3, -2, fp.RM.RTP), C3DN=fp.MPSFloatContext(3, -2, fp.RM.RTN))
+                C3UP=fp.MPSFloatContext(3, -2, fp.RM.RTP), C3DN=fp.MPSFloatContext(3, -2, fp.RM.RTN), C1=fp.MPFloatContext(1), C2UP=fp.MPFloatContext(2, fp.RM.RTP))
 
 
 def by_tag(*tags):
